@@ -14,5 +14,7 @@ CONSTANTS
   SampleMod = 997
   SampleRes = 0
   NearMod = 3
+  SliceMod = 1
+  SliceRes = 0
 INVARIANTS ForAllManifests
 CHECK_DEADLOCK FALSE
